@@ -1463,3 +1463,7 @@ def run(ctx, shard):
         run_secondary(ctx, numqi, torch, mon, shard)
     else:
         raise ValueError(f'unknown shard {name}')
+
+
+# thorough tier: every random shard is run this many times with independent random streams (see vmon/runner.py get_shards)
+THOROUGH_REPEAT = 2
